@@ -3,6 +3,6 @@ NEXT Next
 INVARIANTS Emit
 CHECK_DEADLOCK FALSE
 CONSTANTS
-  PlanName = "pairs"
+  PlanName = "sib"
   Ds = {"d4", "d6", "d7", "d2019", "d2020"}
-  KnownDeviations = {}
+  KnownDeviations = {"ojson-member-order", "not-keeps-annotations"}
